@@ -1,6 +1,7 @@
 package simrt
 
 import (
+	"unicode/utf8"
 	"bytes"
 	"errors"
 	"fmt"
@@ -154,7 +155,7 @@ func checkUpstreamErrors(k *Kernel, cov *Coverage) *Violation {
 					return &Violation{Class: "client-400-not-validation-error", Signature: sig("client-400-not-validation-error"),
 						Detail: fmt.Sprintf("op %d: 400 with violations [%s], TS client rejected with %v", c.Op.ID, wantViolations, c.TSError)}
 				}
-			} else if kind != "api" || numInt(c.TSError["statusCode"]) != status || fmt.Sprint(c.TSError["body"]) != body {
+			} else if kind != "api" || numInt(c.TSError["statusCode"]) != status || !sameText(fmt.Sprint(c.TSError["body"]), body) {
 				return &Violation{Class: "client-error-loses-status", Signature: sig("client-error-loses-status"),
 					Detail: fmt.Sprintf("op %d: upstream answered %d %q, TS client rejected with %v (want an ApiError carrying status and body)", c.Op.ID, status, truncBytes(c.Op.Rogue.Body), c.TSError)}
 			}
@@ -790,4 +791,21 @@ func breakAnotherRule(w *WorldDesc, req proto.Message) {
 		return false
 	}
 	visit(req.ProtoReflect(), 0)
+}
+
+// sameText: got is the text a JS runtime decoded from the bytes want (a body cut inside a
+// multi-byte character decodes to U+FFFD from there on: only the valid prefix is compared).
+func sameText(got, want string) bool {
+	if utf8.ValidString(want) {
+		return got == want
+	}
+	n := 0
+	for n < len(want) {
+		r, sz := utf8.DecodeRuneInString(want[n:])
+		if r == utf8.RuneError && sz <= 1 {
+			break
+		}
+		n += sz
+	}
+	return strings.HasPrefix(got, want[:n])
 }
